@@ -68,9 +68,11 @@ def pool():
     global POOL
     if POOL is None:
         POOL = {
-            "ec1": certs.identity("c03-ec1", "ec"),
-            "ec2": certs.identity("c03-ec2", "ec"),
-            "rsa": certs.identity("c03-rsa", "rsa"),
+            # ec1 / ec2 / rsa are look-alikes: same subject, issuer and serial number, different keys - what tells
+            # two self-signed certificates apart is their content (fingerprint), nothing an impostor can copy
+            "ec1": certs.identity("c03-ec1", "ec", serial=777001),
+            "ec2": certs.identity("c03-ec2", "ec", serial=777001),
+            "rsa": certs.identity("c03-rsa", "rsa", serial=777001),
             "ed": certs.identity("c03-ed", "ed25519"),
             "tbool": certs.identity("c03-tbool", "ec", tamper="bool"),
             "tver": certs.identity("c03-tver", "ec", tamper="version"),
